@@ -130,7 +130,7 @@ def batches(rng, tier):
             r = rng.fork("pairs2" + T)
             cs = cube(clo, chi, 2)
             ops = []
-            for _ in range(120):
+            for _ in range(300):
                 a, b = r.choice(cs), r.choice(cs)
                 if r.chance(1, 2):
                     b = tuple(min(chi, x + r.range(1, 3)) for x in a)
@@ -138,7 +138,7 @@ def batches(rng, tier):
             yield Batch(f"pairs-{T}2-sampledA", ops, note="seeded sample of boxes A (half of them non-empty) against every box B of the full range")
     # ---- 3-D and large coordinates: seeded random
     r = rng.fork("rand")
-    cnt = 12000 if thorough else 1500
+    cnt = 20000 if thorough else 4000
     ops = []
     for _ in range(cnt):
         T = r.choice(["i", "u"])
@@ -164,7 +164,7 @@ def batches(rng, tier):
                 "{0, +-1000, +-2^29} (int) / {0, 1000, 2^31, 2^32-8} (unsigned), 1/6 from a 100-wide range; 60% pair, 40% unary")
     # ---- extreme coordinates: only the comparison-based functions (no arithmetic on int)
     r = rng.fork("extreme")
-    cnt = 6000 if thorough else 800
+    cnt = 8000 if thorough else 1500
     ext = {"i": [-(1 << 31), -(1 << 31) + 1, -1, 0, 1, (1 << 31) - 2, (1 << 31) - 1],
            "u": [0, 1, 2, (1 << 31) - 1, 1 << 31, (1 << 32) - 2, (1 << 32) - 1]}
     ops = []
